@@ -1,0 +1,7 @@
+//go:build !verif
+
+package scheduler
+
+func (bq *InMemoryBuildQueue) verifEnter() {}
+
+func (bq *InMemoryBuildQueue) verifLeave() {}
